@@ -414,7 +414,22 @@ func TestC17Equality(t *testing.T) {
 			if rel.ToOne {
 				vals2[rel.FromName] = vals2[rel.FromName].(string) + "x"
 			} else {
-				vals2[rel.FromName] = append(append([]string{}, vals2[rel.FromName].([]string)...), "extra")
+				// One more ID, or two different lists that read alike when
+				// written out (IDs with spaces, an empty ID against no ID).
+				switch rapid.IntRange(0, 4).Draw(t, "manyvariant") {
+				case 0:
+					vals[rel.FromName], vals2[rel.FromName] = []string{"p q", "r"}, []string{"p", "q r"}
+				case 1:
+					vals[rel.FromName], vals2[rel.FromName] = []string{"p", "q"}, []string{"p q"}
+				case 2:
+					vals[rel.FromName], vals2[rel.FromName] = []string{}, []string{""}
+				case 3:
+					vals[rel.FromName], vals2[rel.FromName] = []string{"a,b"}, []string{"a", "b"}
+				default:
+					vals2[rel.FromName] = append(append([]string{}, vals2[rel.FromName].([]string)...), "extra")
+				}
+
+				a = build(ts, vals, aWrapped)
 			}
 		case "id":
 			vals2["id"] = vals2["id"].(string) + "x"
